@@ -71,6 +71,8 @@ type Frame struct {
 	curInstr     ssa.Instruction
 	loopEntry    map[*loopInfo]*State
 	curLoopEntry *State
+	curLoopIter  *State            // state at the start of the current iteration (iter(e) in loop hints / invariants)
+	loopIter     map[*loopInfo]*State
 	prop         string
 }
 
@@ -891,6 +893,7 @@ func (fr *Frame) run(st *State) {
 		if li := fr.loops[b]; li != nil {
 			fr.enterLoop(li)
 		}
+		fr.loopGhostsAt(b)
 		fr.dead = false
 		for _, ins := range b.Instrs {
 			fr.curInstr = ins
@@ -971,6 +974,16 @@ func (fr *Frame) isStableParam(li *loopInfo, name string) bool {
 		}
 	}
 	if !found {
+		// a local variable of the function that the loop body never assigns is as good as a parameter
+		for _, b := range fr.fn.Blocks {
+			for _, in := range b.Instrs {
+				if a, ok := in.(*ssa.Alloc); ok && a.Comment == name {
+					found = true
+				}
+			}
+		}
+	}
+	if !found {
 		return false
 	}
 	for b := range li.body {
@@ -991,8 +1004,12 @@ func (fr *Frame) checkInvariant(li *loopInfo, kind, desc string) {
 	} else {
 		fr.curLoopEntry = fr.cur
 	}
-	defer func() { fr.curLoopEntry = nil }()
+	fr.curLoopIter = fr.loopIter[li]
+	defer func() { fr.curLoopEntry = nil; fr.curLoopIter = nil }()
 	for _, cl := range fr.loopClauses(li, "hint") {
+		if fr.curLoopIter == nil && specMentions(cl.Expr, "iter") {
+			continue // a hint about the iteration just executed: nothing to say on entry
+		}
 		for _, cj := range splitConj(cl.Expr) {
 			fr.proveSpec("hint", fmt.Sprintf("proof hint before %s (loop %d): %s", desc, li.ord, cj.String()), cl, cj, fr.cur, fr.entry, nil)
 		}
@@ -1000,6 +1017,37 @@ func (fr *Frame) checkInvariant(li *loopInfo, kind, desc string) {
 	for _, cl := range fr.loopClauses(li, "invariant") {
 		for _, cj := range splitConj(cl.Expr) {
 			fr.proveSpec(kind, fmt.Sprintf("%s (loop %d): %s", desc, li.ord, cj.String()), cl, cj, fr.cur, fr.entry, nil)
+		}
+	}
+}
+
+// loopGhostsAt: `loop N ghost lhs := e` updates run when an iteration of loop N starts, i.e. at the top of the
+// body block entered from the loop header.
+func (fr *Frame) loopGhostsAt(b *ssa.BasicBlock) {
+	if !fr.top || fr.contract == nil || len(fr.contract.LoopGhosts) == 0 {
+		return
+	}
+	for h, li := range fr.loops {
+		if !li.body[b] || b == h {
+			continue
+		}
+		fromHeader := false
+		for _, p := range b.Preds {
+			if p == h {
+				fromHeader = true
+			}
+		}
+		if !fromHeader {
+			continue
+		}
+		for _, lg := range fr.contract.LoopGhosts {
+			if lg.Loop != li.ord || !fr.x.active(&Clause{Props: lg.AC.Props}) {
+				continue
+			}
+			fr.cur = fr.cur.clone()
+			se := fr.specEnvFor(fr.cur, fr.entry, fr.mergeVars(nil), true)
+			v := se.eval(lg.AC.Expr)
+			fr.assignGhost(lg.AC, se, v)
 		}
 	}
 }
@@ -1068,6 +1116,29 @@ func (fr *Frame) enterLoop(li *loopInfo) {
 			case *ssa.MakeSlice, *ssa.MakeMap, *ssa.MakeChan, *ssa.MakeClosure, *ssa.MakeInterface:
 				mods.comps["W"] = true
 			case *ssa.Select, *ssa.Send:
+			}
+		}
+	}
+	if fr.top && fr.contract != nil {
+		for _, lg := range fr.contract.LoopGhosts {
+			if lg.Loop != li.ord {
+				continue
+			}
+			base := lg.AC.LHS
+			if base != nil && base.Op == "index" {
+				base = base.Args[0]
+			}
+			for _, g := range fr.contract.GhostVars {
+				if base != nil && base.Op == "ident" && g.Name == base.Name {
+					cells[fr.ghostCell(g.Name)] = nil
+				}
+			}
+			if base != nil && base.Op == "sel" {
+				for _, g := range fr.x.e.cf.Ghost {
+					if g.Field == base.Name {
+						gmods["F."+g.Type+"."+g.Field] = append(gmods["F."+g.Type+"."+g.Field], base.Args[0])
+					}
+				}
 			}
 		}
 	}
@@ -1190,6 +1261,12 @@ func (fr *Frame) enterLoop(li *loopInfo) {
 	for _, cl := range fr.loopClauses(li, "apply") {
 		fr.applyLemma(cl, fr.cur, nil)
 	}
+	// 5. remember the state at the start of the iteration (iter(e))
+	if fr.loopIter == nil {
+		fr.loopIter = map[*loopInfo]*State{}
+	}
+	fr.loopIter[li] = fr.cur
+	fr.cur = fr.cur.clone()
 }
 
 // callModsInto adds what a call may modify (contract modifies or inferred mod set).
